@@ -277,6 +277,10 @@ def record(sc):
             # (norms below eps = 1e-10 are documented to be treated as zero: the scaled columns stay above 1e-8)
             nz = bn[bn > 0]
             cs = 2.0 ** -20 if (sc["seed"] % 2 and len(nz) and float(nz.min()) * 2.0 ** -20 > 1e-8) else 2.0 ** 10
+            if eps_cg <= 1e-20 and len(nz) and float(nz.min()) * 2.0 ** -40 > eps_cg * 1e6:
+                # with a smaller eps the documented zero threshold is eps itself: a column of norm ~1e-12 is an ordinary column (it lies
+                # below the freeze threshold 1e-10, which applies to residuals of the normalised system, not to right-hand sides)
+                cs = 2.0 ** -40
             o2 = run_cg(A, rhs_arg * cs, sc, sc["max_iter"], n_tri=sc["n_tri"], max_tri=sc["max_tri"],
                         guess=None if guess is None else guess * cs, pre=pre)
             if o2["raised"] is None:
